@@ -22,9 +22,9 @@ from pbt import c02_ref_itp
 
 PROPERTY = 'C11'
 LEVEL = 'exploration'
-RULE = ('a contiguous fragment (4-24 residues quick / 4-40 thorough, optionally crossing a chain boundary, or split into two chains with generated identifiers by leaving one residue out) of one of 12 test structures (one case in five around a histidine that carries both ring hydrogens) '
+RULE = ('a contiguous fragment (4-24 residues quick / 4-40 thorough, optionally crossing a chain boundary, or split into two chains with generated identifiers by leaving one residue out) of one of 12 test structures (one case in five around a histidine that carries both ring hydrogens; one case in three around one of the 7 disulfide bridges of the structures, the S-S bond stated by CONECT records in both files, three times in four with -cys none so that only the records put it into the topology) '
         '(with and without hydrogens, with disulfides, two chains) x a presentation change (within-residue atom permutation, '
-        'hydrogen renaming by scheme or unique random names, synthetic alternate-location records, one of 24 exact rotations + grid translation up to 20 A, one case in three up to 400 A, one in four such that a heavy atom lands on the origin exactly, PYTHONHASHSEED in '
+        'hydrogen renaming by scheme or unique random names, in CONECT cases three times in four every atom keeps the serial number of the file as is so that serial numbers do not follow the order of the file, otherwise atoms are renumbered and the records name the new numbers, synthetic alternate-location records, one of 24 exact rotations + grid translation up to 20 A, one case in three up to 400 A, one in four such that a heavy atom lands on the origin exactly, PYTHONHASHSEED in '
         '{0,1,4242}) x pipeline options (-ff martini3001/martini22/elnedyn22, -elastic with bounds, -p backbone, -ss, -dssp, -cys, '
         '-nt, -noscfix, -merge all / -merge <chains>); both runs go through the real entry() and the written files are compared; non-trivial = the change moved '
         'at least one heavy atom in the file or renamed a hydrogen, and the fragment contains a residue with a symmetric side '
@@ -34,6 +34,7 @@ ASSUMPTIONS = [
     'an elastic bond may differ between the runs only if its length is within 1e-6 relative of the upper bound',
     'numeric ITP parameters are compared with relative tolerance 1e-6 (elastic lengths +-1.1e-5 nm); CG coordinates with 0.0015 A',
     'the loaders of force fields and mappings are memoised per server process (loaded once under that process hash seed)',
+    'atom serial numbers are presentation: a file whose atoms keep their serial numbers while their order changes, with CONECT records naming those numbers, states the same bonds (PDB format: CONECT refers to atom serial numbers); CONECT cases are not split into two chains',
     'polarizable force fields (random charge-dummy placement) are not generated',
     'a presentation on which the pipeline does not answer within 60 times the duration of the other run (and at least 300 s) counts as "no topology for that presentation"; this is the only use of time in the oracle',
 ]
@@ -687,5 +688,5 @@ PARTS = [
     Part('pipeline-pairs', run, strategy=strategy, examples={'quick': 72, 'thorough': 1600}, per_shard_min=12,
          case_timeout=0,   # the part has its own limits per pipeline run
          shrink_budget={'quick': 12, 'thorough': 60},
-         floors={'has-interactions': 0.5, 'heavy-atoms-permuted': 0.2, 'rigid-motion': 0.5, 'other-hashseed': 0.3}),
+         floors={'has-interactions': 0.5, 'heavy-atoms-permuted': 0.2, 'conect-serials-out-of-file-order': 0.06, 'rigid-motion': 0.5, 'other-hashseed': 0.3}),
 ]
